@@ -16,10 +16,12 @@ collapse), and the flag `direct` says whether `bases[0]` is the root class.  For
 `k in base.registry` is false (every class gets its OWN empty `registry` dict in
 `SpecSetMeta.__new__`), so nothing is wired — `regEntry` mirrors exactly that test.
 
-Not modelled: spec-set classes other than the root that declare RegistryPoints themselves
-(re-declaring a point in a subclass chains the points and shares the root's handler lists through
-`itertools.takewhile(...)/parents[-1]`); the propagation of the point's flags (filterable, raw,
-multi_output, no_obfuscate, no_redact, prio) onto the implementation.
+The second half of this file (`HClass`, `hRegister`, `hWorld`) is the general shape: every class carries its
+`parents` chain and may RE-DECLARE registry points; the flat model is its special case and the driver checks
+that the two agree where both apply.
+
+Not modelled: the propagation of the point's flags (filterable, raw, multi_output, no_obfuscate, no_redact,
+prio) onto the implementation; the rejection of multiple inheritance (`len(bases) > 1`).
 -/
 namespace IV.Specs
 open IV.Dr
@@ -141,5 +143,105 @@ def runLogged (w : World) (inG : Comp → Bool) (ss : Bool) : List Comp → Brok
   | c :: o, b =>
     let r := runLogged w inG ss o (step w inG ss b c)
     ((if invoked w inG b.inst c then [c] else []) ++ r.1, r.2)
+
+/-! ### hierarchies: registry points RE-DECLARED in intermediate spec-set classes
+
+The general shape of `_resolve_registry_points` / `_register_context_handler`.  A history is the list of
+ALL spec-set classes in creation order (class id = position; the class that first declares the points is
+just an ordinary member), each with its `parents` chain — `cls.__mro__` without `cls`, `SpecSet`, `object`:
+`[base, base of base, …, top]` — and its attributes in `dct.items()` order: RegistryPoints and datasources.
+
+* every class has its OWN `registry` (name ↦ point) and its own `context_handlers`;
+* an attribute (a datasource, but also a re-declared RegistryPoint — `is_datasource` holds for it) is wired
+  iff its name is in the registry of `bases[0] = parents[0]`; it becomes a dependency of THAT point;
+* its contexts are recorded in the handler table of `parents'[-1]`, where `parents'` is the longest prefix of
+  `parents` all of whose classes declare the name (`itertools.takewhile`): a point re-declared down a chain
+  of classes shares the table of the topmost class of the chain, so implementations attached at different
+  levels override one another.
+
+The flat model above is the special case "one class declares points, all others only datasources"; the
+driver evaluates both on such histories and reports whether they agree. -/
+
+abbrev ClassId := Nat
+
+structure HEntry where
+  name : Name
+  comp : Comp
+  isPoint : Bool            -- `name = RegistryPoint()` rather than a datasource
+  ctxs : List Comp          -- `_get_ctx_dependencies(comp)` when the class is created ([] for a fresh RegistryPoint)
+deriving DecidableEq, Repr
+
+structure HClass where
+  parents : List ClassId
+  entries : List HEntry
+deriving DecidableEq, Repr
+
+abbrev HHistory := List HClass
+
+structure HReg where
+  nclasses : Nat
+  registry : ClassId → Name → Option Comp           -- `cls.registry`
+  isPoint : Comp → Bool                             -- the components that are RegistryPoints
+  deps : Comp → List Comp                           -- `DELEGATES[point].deps`, in append order
+  handlers : ClassId → Name → Comp → List Comp      -- `cls.context_handlers[name][ctx]`
+  ignore : Comp → List Comp                         -- `dr.IGNORE`
+
+def HReg.empty : HReg := ⟨0, fun _ _ => none, fun _ => false, fun _ => [], fun _ _ _ => [], fun _ => []⟩
+
+def hAddHandler (root : ClassId) (n : Name) (v : Comp) (r : HReg) (c : Comp) : HReg :=
+  let olds := r.handlers root n c
+  { r with
+    ignore := fun x => if olds.contains x then r.ignore x ++ [c] else r.ignore x
+    handlers := fun k m d => if k = root ∧ m = n ∧ d = c then olds ++ [v] else r.handlers k m d }
+
+/-- the class whose handler table is used: `parents = takewhile(lambda x: name in x.registry, parents)`,
+then `parents[-1]` (none: `if not parents: return`) -/
+def handlerRoot (r : HReg) (ps : List ClassId) (n : Name) : Option ClassId :=
+  (ps.takeWhile (fun x => (r.registry x n).isSome)).getLast?
+
+/-- `if k in base.registry: … dr.add_dependency(point, v); _register_context_handler(parents, v)` -/
+def hAttach (ps : List ClassId) (n : Name) (v : Comp) (ctxs : List Comp) (r : HReg) : HReg :=
+  match ps with
+  | [] => r                                  -- bases[0] is SpecSet: its registry is empty
+  | b :: _ =>
+    match r.registry b n with
+    | none => r
+    | some pt =>
+      let r1 := { r with deps := fun x => if x = pt then r.deps x ++ [v] else r.deps x }
+      match handlerRoot r ps n with
+      | none => r1
+      | some root => (dedup ctxs).foldl (hAddHandler root n v) r1
+
+/-- one `(k, v)` of `dct.items()` for the class `k` being created -/
+def hRegEntry (k : ClassId) (ps : List ClassId) (r : HReg) (e : HEntry) : HReg :=
+  if e.isPoint then
+    hAttach ps e.name e.comp e.ctxs
+      { r with registry := fun k' m => if k' = k ∧ m = e.name then some e.comp else r.registry k' m
+               isPoint := fun x => if x = e.comp then true else r.isPoint x }
+  else hAttach ps e.name e.comp e.ctxs r
+
+def hRegClass (r : HReg) (cd : HClass) : HReg :=
+  let r' := cd.entries.foldl (hRegEntry r.nclasses cd.parents) r
+  { r' with nclasses := r.nclasses + 1 }
+
+def hRegister (h : HHistory) : HReg := h.foldl hRegClass HReg.empty
+
+/-- a parents chain can only name classes that exist already -/
+def hWellFormed : Nat → HHistory → Bool
+  | _, [] => true
+  | k, cd :: h => cd.parents.all (· < k) && hWellFormed (k + 1) h
+
+def hWorld (env : World) (r : HReg) : World where
+  decl c := if r.isPoint c then some (pointDecl (r.deps c)) else env.decl c
+  enabled := env.enabled
+  ignore := r.ignore
+  regPoints := env.regPoints
+  body c args := if r.isPoint c then pointBody args else env.body c args
+  elemBody := env.elemBody
+
+/-- the datasources (non-points) reachable from a point through its dependencies and the points among them -/
+def famLeaves (r : HReg) : Nat → Comp → List Comp
+  | 0, _ => []
+  | f + 1, p => (r.deps p).flatMap (fun d => if r.isPoint d then famLeaves r f d else [d])
 
 end IV.Specs
